@@ -52,9 +52,11 @@ P = {
  "C08": ("Rocq theorems: invariant Inv (indexes = replay of committed records) holds for every reachable world (reachable_inv) and "
          "implies that reopening with any options rebuilds identical indexes, committed ids and offsets (reopen_preserves); commit-time "
          "application = open-time replay (commit_index_replay). Tie: mixed histories with reopen after half of the transactions and a full "
-         "observation before/after, vs model and spec.", ""),
+         "observation before/after, vs model and spec. Byte level (DiskBytes.reachable_reopen_bytes): opening the BYTES of the directory of any "
+         "reachable world (every file scanned as Open does, then replayed) with any options rebuilds the indexes of the running process.", ""),
  "C09": ("Rocq theorems: for ANY file content the segment scan of Open ends without the fatal error (scan_never_fails), recovers appended "
-         "records exactly incl. an exactly full segment, stops at a torn tail; reachable directories reopen. Fault enumeration: every "
+         "records exactly incl. an exactly full segment, stops at a torn tail; Open over the bytes of any set of files never fails and, on every "
+         "directory reachable by calls, reopens and Merges, equals the record-level Open (DiskBytes). Fault enumeration: every "
          "mutation point x torn prefixes of generated workloads is rebuilt from the recorded trace and opened with the real Open under "
          "alternating RWMode/StartFileLoadingMode; recovered databases are continued (commits, rotation, clean reopen); the same enumeration "
          "in the sparse index mode (crashsparse); histories whose transactions pop/remove/trim structures they already modified, then reopen.",
@@ -62,7 +64,8 @@ P = {
          "KNOWN FINDING F32: in HintBPTSparseIdxMode a crash inside a Commit that rewrites index or bucket-meta files is not recoverable "
          "(reported as KNOWN-FINDING, attributed to exactly those crash points)."),
  "C10": ("Rocq theorems: a crash leaving k<n records of the in-flight transaction recovers the pre-transaction indexes, k=n the "
-         "post-commit ones (crash_prefix_invisible, crash_complete_visible); records without marker never influence recovery; unique ids. "
+         "post-commit ones (crash_prefix_invisible, crash_complete_visible), also stated over the BYTES of the directory (DiskBytes: torn tail "
+         "then zeros, truncated record at EOF, both read modes); records without marker never influence recovery; unique ids. "
          "Fault enumeration on the real code as in C09: the recovered observation must equal the live observation before or after the "
          "in-flight transaction; the same enumeration in the sparse index mode (crashsparse).", "KNOWN FINDING F32 (sparse mode, see C09). Hypothesis made explicit: a torn record does not decode to a record (no 32-bit checksum can exclude "
          "it for all contents; proved for single-byte corruption and truncation at EOF)."),
